@@ -1,9 +1,158 @@
-import OciModel.Scope
+/-
+C09 — `ociauth.Scope` is a faithful finite-set abstraction.
+
+Property theorems about the model in `OciModel/Scope.lean`. The proofs here only
+assemble the helper lemmas of `OciModel/ScopeLemmas.lean` and, for the print/parse
+round trip, `OciModel/ScopeParse.lean`.
+
+`Mem r s` (`r ∈ iter s`) is the abstraction function: the finite set of resource
+scopes a limited scope stands for. `WF` is the representation invariant; it is
+established by every constructor (`newScope_wf`, `parseScope_wf`, `union_wf`).
+-/
+import OciModel.ScopeLemmas
+import OciModel.ScopeParse
 namespace OciModel.Props.C09
 open OciModel.Scope
 
 /-- The unlimited scope contains everything. -/
 theorem unlimited_contains_all (s : Scope) : contains unlimitedScope s = true := by
   simp [contains, unlimitedScope]
+
+/-! ### P1 — sort-and-compact -/
+
+theorem sortU_strictAsc (l : List RS) : StrictAsc (sortU l) := Scope.sortU_strictAsc l
+
+theorem mem_sortU (r : RS) (l : List RS) : r ∈ sortU l ↔ r ∈ l := Scope.mem_sortU r l
+
+/-! ### P2, P3 — construction establishes the invariant and agrees with the naive set -/
+
+theorem newScope_wf (l : List RS) : WF (newScope l) := Scope.newScope_wf l
+
+theorem parseScope_wf (s : Bytes) : WF (parseScope s) := Scope.parseScope_wf s
+
+theorem mem_newScope (r : RS) (l : List RS) : Mem r (newScope l) ↔ r ∈ l :=
+  Scope.mem_newScope r l
+
+/-! ### P4 — iteration is strictly ascending -/
+
+theorem iter_strictAsc (s : Scope) (h : WF s) : StrictAsc (iter s) :=
+  (strictAsc_iff_pairwise _).mpr (iter_pairwise h)
+
+/-! ### P5 — `Holds` is membership -/
+
+theorem holds_iff_mem (s : Scope) (h : WF s) (hl : s.unlimited = false) (r : RS) :
+    holds s r = true ↔ Mem r s := Scope.holds_iff_mem s h hl r
+
+/-! ### P6 — `Union` is set union and preserves the invariant -/
+
+theorem union_wf (a b : Scope) (ha : WF a) (hb : WF b) : WF (union a b) :=
+  Scope.union_wf a b ha hb
+
+theorem mem_union (a b : Scope) (_ha : WF a) (_hb : WF b)
+    (la : a.unlimited = false) (lb : b.unlimited = false) (r : RS) :
+    Mem r (union a b) ↔ Mem r a ∨ Mem r b := mem_union' la lb r
+
+/-! ### P7 — `Contains` is set inclusion -/
+
+theorem contains_iff_subset (a b : Scope) (ha : WF a) (hb : WF b)
+    (la : a.unlimited = false) (lb : b.unlimited = false) :
+    contains a b = true ↔ ∀ r, Mem r b → Mem r a :=
+  Scope.contains_iff_subset a b ha hb la lb
+
+/-! ### P8 — `Equal` is extensional equality -/
+
+theorem equal_iff (a b : Scope) (ha : WF a) (hb : WF b) :
+    equal a b = true ↔ (a.unlimited = b.unlimited ∧ ∀ r, Mem r a ↔ Mem r b) :=
+  Scope.equal_iff a b ha hb
+
+/-! ### P9 — `Len` counts the iterated items -/
+
+theorem len_eq (s : Scope) (h : WF s) (hl : s.unlimited = false) :
+    len s = .ok (iter s).length := Scope.len_eq s h hl
+
+/-! ### P10 — a no-op `Union` returns the receiver itself (including `original`) -/
+
+theorem union_noop_returns_receiver (a b : Scope) (ha : WF a) (hb : WF b)
+    (la : a.unlimited = false) (lb : b.unlimited = false)
+    (hsub : ∀ r, Mem r b → Mem r a) : union a b = a :=
+  Scope.union_noop_returns_receiver a b ha hb la lb hsub
+
+/-! ### P11 — the unlimited scope -/
+
+theorem unlimited_holds (r : RS) : holds unlimitedScope r = true := Scope.unlimited_holds r
+
+theorem union_unlimited_left (s : Scope) : union unlimitedScope s = unlimitedScope :=
+  Scope.union_unlimited_left s
+
+theorem union_unlimited_right (s : Scope) : union s unlimitedScope = unlimitedScope :=
+  Scope.union_unlimited_right s
+
+theorem not_contains_unlimited (s : Scope) (hl : s.unlimited = false) :
+    contains s unlimitedScope = false := Scope.not_contains_unlimited s hl
+
+/-! ### P12 — repository scopes and the catalog scope never confer one another -/
+
+theorem repo_catalog_disjoint (l : List RS) :
+    (holds (newScope l) catalog = true ↔ catalog ∈ l) ∧
+    ∀ n a, holds (newScope l) (tyRepository, n, a) = true ↔ (tyRepository, n, a) ∈ l := by
+  have hwf := Scope.newScope_wf l
+  have hl := newScope_unlimited l
+  exact ⟨(Scope.holds_iff_mem _ hwf hl _).trans (Scope.mem_newScope _ l),
+    fun n a => (Scope.holds_iff_mem _ hwf hl _).trans (Scope.mem_newScope _ l)⟩
+
+/-! ### P13 — print/parse round trip
+
+`CleanField b` (`OciModel/ScopeParse.lean`): `b` is non-empty and has no byte in
+`{9, 10, 11, 12, 13, 32, ':', ',', 0xC2, 0xE1, 0xE2, 0xE3}` (no white space in the
+sense of `unicode.IsSpace`, no separator). `CleanRS r`: all three parts are clean,
+or the type is clean and resource and action are empty (an opaque one-word scope).
+Both are decidable. -/
+
+/-- The full round-trip statement. -/
+def print_parse_statement : Prop :=
+  ∀ l : List RS, (∀ r ∈ l, CleanRS r) →
+    equal (parseScope (toStr (newScope l))) (newScope l) = true
+
+theorem print_parse (l : List RS) (h : ∀ r ∈ l, CleanRS r) :
+    equal (parseScope (toStr (newScope l))) (newScope l) = true := Scope.print_parse l h
+
+theorem print_parse_statement_holds : print_parse_statement := print_parse
+
+/-! ### The hypotheses are satisfiable by non-trivial scopes -/
+
+/-- Built from "repository:a:pull,push registry:catalog:* repository:b:d foo". -/
+def exA : Scope :=
+  newScope [(tyRepository, [97], actPull), (tyRepository, [97], actPush), catalog,
+    (tyRepository, [98], [100]), ([102, 111, 111], [], [])]
+
+/-- "repository:a:pull". -/
+def exB : Scope := newScope [(tyRepository, [97], actPull)]
+
+example : WF exA ∧ exA.unlimited = false := ⟨Scope.newScope_wf _, newScope_unlimited _⟩
+example : WF exB ∧ exB.unlimited = false := ⟨Scope.newScope_wf _, newScope_unlimited _⟩
+example : exA.repos = [⟨[], true, false⟩, ⟨[97], true, true⟩] ∧
+    exA.others = [([102, 111, 111], [], []), (tyRepository, [98], [100])] := by decide
+example : (iter exA).length = 5 := by decide
+example : contains exA exB = true ∧ contains exB exA = false := by decide
+/-- The hypothesis of P10 holds for `exA`, `exB` (and the conclusion is not vacuous). -/
+example : ∀ r, Mem r exB → Mem r exA :=
+  (contains_iff_subset exA exB (Scope.newScope_wf _) (Scope.newScope_wf _)
+    (newScope_unlimited _) (newScope_unlimited _)).mp (by decide)
+example : WF unlimitedScope := wf_unlimitedScope
+
+/-- The list behind `exA` is clean, it prints as
+"foo registry:catalog:* repository:a:pull,push repository:b:d", and that text parses back. -/
+def exAList : List RS :=
+  [(tyRepository, [97], actPull), (tyRepository, [97], actPush), catalog,
+    (tyRepository, [98], [100]), ([102, 111, 111], [], [])]
+example : ∀ r ∈ exAList, CleanRS r := by decide
+example : toStr exA =
+    -- "foo registry:catalog:* repository:a:pull,push repository:b:d"
+    ([102, 111, 111, 32, 114, 101, 103, 105, 115, 116, 114, 121, 58, 99, 97, 116, 97, 108,
+      111, 103, 58, 42, 32, 114, 101, 112, 111, 115, 105, 116, 111, 114, 121, 58, 97, 58, 112,
+      117, 108, 108, 44, 112, 117, 115, 104, 32, 114, 101, 112, 111, 115, 105, 116, 111, 114,
+      121, 58, 98, 58, 100] : Bytes) := by
+  decide
+example : equal (parseScope (toStr exA)) exA = true := by decide
 
 end OciModel.Props.C09
